@@ -544,6 +544,11 @@ pub fn e3_dynspace(ctx: &Ctx, name: &str, st: &mut Local, f: Sink) {
         vec![Tok::Lit(b'a'), Tok::Lit(b'b'), Tok::Lit(b'a')],
         vec![Tok::Lit(b'a'), r(3, 1), Tok::Lit(b'b'), r(4, 2)],
         vec![Tok::Lit(b'a'), Tok::Lit(b'b'), Tok::Lit(b'c'), r(3, 3), r(258, 1), Tok::Lit(0xff)],
+        // exactly one distance symbol in use (symbols 1, 2, 3 and 0)
+        vec![Tok::Lit(b'a'), Tok::Lit(b'b'), r(6, 2)],
+        vec![Tok::Lit(b'a'), Tok::Lit(b'b'), Tok::Lit(b'c'), r(9, 3), r(3, 3)],
+        vec![Tok::Lit(b'a'), Tok::Lit(b'b'), Tok::Lit(b'c'), Tok::Lit(b'd'), r(8, 4)],
+        vec![Tok::Lit(b'a'), r(5, 1)],
         // every literal once: code lengths 8 and 9 only
         (0..=255u8).map(Tok::Lit).collect(),
         // 40 literals with skewed frequencies: code lengths 1..=10
@@ -689,6 +694,63 @@ pub fn e3_dynspace(ctx: &Ctx, name: &str, st: &mut Local, f: Sink) {
                 }
             }
         }
+        // (g) incomplete distance code: a single code of length 1 (zlib accepts this; real compressors
+        // emit it), for token lists that use exactly one distance symbol; and no distance code at all
+        // for lists without references
+        {
+            let mut df = vec![0u32; 30];
+            for t in toks {
+                if let Tok::Ref { dist, .. } = *t {
+                    df[dist_sym(dist).0] += 1;
+                }
+            }
+            let used: Vec<usize> = (0..30).filter(|&i| df[i] > 0).collect();
+            if used.len() == 1 {
+                for slack in 0..2 {
+                    let mut d2 = vec![0u8; used[0] + 1 + slack];
+                    d2[used[0]] = 1;
+                    emit(st, &mut idx, true, &mut || dyn_case(toks, header_from_lengths(&ll, &d2), &plain, format!("list{} single distance code at symbol {} hdist {}", li, used[0], d2.len())));
+                }
+            }
+            if used.is_empty() {
+                emit(st, &mut idx, true, &mut || dyn_case(toks, header_from_lengths(&ll, &[0]), &plain, format!("list{} no distance code (HDIST=1, length 0)", li)));
+                emit(st, &mut idx, true, &mut || dyn_case(toks, header_from_lengths(&ll, &[1]), &plain, format!("list{} one unused distance code of length 1", li)));
+            }
+        }
+
+        // (f) malformed endings: the last run-length item overshoots HLIT+HDIST (invalid per RFC 1951;
+        // zlib rejects it; the subject must answer Ok or Err). The codes themselves stay complete.
+        for (padded, repeat) in [(true, false), (false, true)] {
+            let mut d2 = dl.clone();
+            if padded {
+                // trailing zero lengths so that the header ends with a zero run
+                d2.resize(dl.len() + 5, 0);
+            } else if repeat {
+                // four distance codes of length 2: the header ends with "2, repeat 3"
+                d2 = vec![2, 2, 2, 2];
+            }
+            let h = header_from_lengths(&ll, &d2);
+            if !header_covers(&h, toks) {
+                continue;
+            }
+            let last = *h.items.last().unwrap();
+            let maxrun = match last.0 { 16 => 6, 17 => 10, 18 => 138, _ => 0 };
+            for extra in [1u8, 2, 3, 200] {
+                let n = (last.1 as u32 + extra as u32).min(maxrun as u32) as u8;
+                if maxrun == 0 || n <= last.1 {
+                    continue;
+                }
+                let mut hh = h.clone();
+                let k = hh.items.len() - 1;
+                hh.items[k].1 = n;
+                emit(st, &mut idx, true, &mut || {
+                    let mut c = dyn_case(toks, hh.clone(), &plain, format!("list{} last run {:?} overshoots to {}", li, last, n))?;
+                    c.plain = None;
+                    Some(c)
+                });
+            }
+        }
+
         // (e) coarse run-length policies: no runs at all, no zero runs, no repeat runs
         let mut all = ll.clone();
         all.extend_from_slice(&dl);
@@ -716,7 +778,7 @@ pub fn e3_dynspace(ctx: &Ctx, name: &str, st: &mut Local, f: Sink) {
         }
     }
     let e = st.eng(name);
-    e.bound = "6 token lists x {coarse run-length policies (no runs, no zero runs, no repeat runs); HLIT,HDIST 5-value menus x HCLEN min..19; all complete length vectors over the used lit/len symbols, over 2-4 distance symbols, over the used code-length symbols; default RLE with every single and every pair of alternative run choices}".into();
+    e.bound = "10 token lists x {incomplete distance codes (single code of length 1, none); last run overshooting HLIT+HDIST (malformed); coarse run-length policies (no runs, no zero runs, no repeat runs); HLIT,HDIST 5-value menus x HCLEN min..19; all complete length vectors over the used lit/len symbols, over 2-4 distance symbols, over the used code-length symbols; default RLE with every single and every pair of alternative run choices}".into();
     e.exhaustive = true;
 }
 
@@ -754,6 +816,18 @@ pub fn e4_quick_dists() -> Vec<u16> {
     v.into_iter().map(|d| d as u16).collect()
 }
 
+/// maximally skewed complete code over the `used` symbols: frequencies grow geometrically with the
+/// rotated rank, so the symbols at the tail of the rotation get the longest codes (up to the limit)
+pub fn skewed_lengths(total: usize, used: &[usize], rot: usize, limit: u8) -> Vec<u8> {
+    let mut freq = vec![0u32; total];
+    let n = used.len();
+    for (k, &sym) in used.iter().enumerate() {
+        let rank = (k + rot) % n;
+        freq[sym] = 1u32 << (rank.min(30));
+    }
+    huff_lengths(&freq, limit)
+}
+
 pub fn e4_pairspace(ctx: &Ctx, name: &str, dists: &[u16], st: &mut Local, f: Sink) {
     if !ctx.engine_on(name) {
         return;
@@ -761,14 +835,16 @@ pub fn e4_pairspace(ctx: &Ctx, name: &str, dists: &[u16], st: &mut Local, f: Sin
     let prefix = e4_prefix();
     let mut idx = 0u64;
     for &dist in dists {
-        for variant in 0..3 {
-            // 0: fixed code, regular 258; 1: fixed code, 258 as 284+31; 2: dynamic code, both 258 codings
+        for variant in 0..5 {
+            // 0: fixed code, regular 258; 1: fixed code, 258 as 284+31; 2: dynamic code, both 258 codings;
+            // 3, 4: dynamic codes that are as skewed as possible (15-bit codes for the distance symbol
+            // in use and, in two rotations, for the length symbols), both 258 codings
             let i = idx;
             idx += 1;
             if ctx.sel.mine(i) {
                 let e = st.eng(name);
-                e.states += 256 + (variant == 2) as u64;
-                e.transitions += 256 + (variant == 2) as u64;
+                e.states += 256 + (variant >= 2) as u64;
+                e.transitions += 256 + (variant >= 2) as u64;
                 e.nontrivial += 1;
             }
             if !ctx.take(name, i) {
@@ -778,11 +854,20 @@ pub fn e4_pairspace(ctx: &Ctx, name: &str, dists: &[u16], st: &mut Local, f: Sin
             for len in 3..=258u16 {
                 toks.push(Tok::Ref { len, dist, irr: variant == 1 && len == 258 });
             }
-            if variant == 2 {
+            if variant >= 2 {
                 toks.push(Tok::Ref { len: 258, dist, irr: true });
             }
             let blk = if variant == 2 {
                 Block::Dyn { hdr: default_header(&toks), toks }
+            } else if variant >= 3 {
+                // all 29 length symbols + EOB coded; all 30 distance symbols coded, the one in use last
+                let used_l: Vec<usize> = (256..286).collect();
+                let ll = skewed_lengths(286, &used_l, if variant == 3 { 0 } else { 15 }, 15);
+                let ds = dist_sym(dist).0;
+                let mut used_d: Vec<usize> = (0..30).filter(|&x| x != ds).collect();
+                used_d.insert(0, ds);
+                let dl = skewed_lengths(30, &used_d, 0, 15);
+                Block::Dyn { hdr: header_from_lengths(&ll, &dl), toks }
             } else {
                 Block::Fixed { toks }
             };
@@ -802,7 +887,7 @@ pub fn e4_pairspace(ctx: &Ctx, name: &str, dists: &[u16], st: &mut Local, f: Sin
     }
     let e = st.eng(name);
     e.bound = format!(
-        "{} distances x every length 3..258 x {{fixed code regular 258, fixed code 258 as 284+31, dynamic code with both}}; 256-257 references per stream behind a 32 KiB stored prefix",
+        "{} distances x every length 3..258 x {{fixed code regular 258, fixed code 258 as 284+31, dynamic code with both, two maximally skewed dynamic codes (15-bit codes for the distance symbol and for the length symbols)}}; 256-257 references per stream behind a 32 KiB stored prefix",
         dists.len()
     );
     e.exhaustive = dists.len() == 32768;
@@ -902,6 +987,25 @@ pub fn text_family(kind: usize, len: usize) -> Vec<u8> {
                 if next() % 3 == 0 {
                     v.extend_from_slice(&text_family(1, 40 + (next() % 200) as usize));
                 }
+            }
+        }
+        9 => {
+            // sandwich: text, incompressible noise (forces stored blocks in the middle of a stream), text
+            let t = len / 4;
+            v.extend_from_slice(&text_family(1, t));
+            v.extend_from_slice(&text_family(4, len - 2 * t));
+            let again = text_family(1, 2 * t);
+            v.extend_from_slice(&again[t / 2..t / 2 + t]);
+        }
+        10 => {
+            // periodic data with periods 1..=8 (single distance code per block for some compressors)
+            let mut period = 1;
+            while v.len() < len {
+                let n = (len / 8).max(period * 4);
+                for i in 0..n {
+                    v.push(b"abcdefgh"[i % period]);
+                }
+                period = period % 8 + 1;
             }
         }
         _ => {
@@ -1249,5 +1353,113 @@ pub fn e6_lensweep(
     }
     let e = st.eng(name);
     e.bound = format!("every plaintext length 0..={} of texts {:?} x {} compressor configurations", maxlen, kinds, comps.len());
+    e.exhaustive = true;
+}
+
+/// E6align: a 258-byte match (copy of an earlier segment) inserted at every offset X of a window
+/// around a position threshold of the hash chain (u16 position re-base), compressed by real
+/// compressors; the match start sweeps over every alignment relative to the threshold
+pub fn e6_align(
+    ctx: &Ctx,
+    name: &str,
+    comps: &[Comp],
+    windows: &[(usize, usize)],
+    st: &mut Local,
+    f: &mut dyn FnMut(&mut Local, &str, u64, &StreamCase, &Comp),
+) {
+    if !ctx.engine_on(name) {
+        return;
+    }
+    let filler = text_family(8, 140_000);
+    let mut idx = 0u64;
+    for &(lo, hi) in windows {
+        for x in lo..hi {
+            for (ci, c) in comps.iter().flat_map(|c| [(0usize, c), (1usize, c), (2usize, c)]) {
+                let i = idx;
+                idx += 1;
+                if ctx.sel.mine(i) {
+                    let e = st.eng(name);
+                    e.states += 1;
+                    e.transitions += 1;
+                    e.nontrivial += 1;
+                }
+                if !ctx.take(name, i) {
+                    continue;
+                }
+                // layout: filler, U (300 unique noise bytes), V (16 unique noise bytes), filler up to x,
+                // marker, copy of U[..seg], copy of V[..3|5], marker, tail. The sources are unique, so
+                // every compressor finds exactly one candidate and emits one maximal match at x + 1.
+                let noise = text_family(4, 400);
+                let (u, v) = (&noise[..300], &noise[300..316]);
+                let mut p = filler[..x - 1000].to_vec();
+                p.extend_from_slice(u);
+                p.extend_from_slice(v);
+                p.extend_from_slice(&filler[x - 684..x]);
+                debug_assert_eq!(p.len(), x);
+                p.push(0xf7);
+                let seg = if ci <= 1 { 258 } else { 300 };
+                p.extend_from_slice(&u[..seg]);
+                // the short match: 3 bytes (shorter than every max_lazy) or 5 bytes
+                p.extend_from_slice(&v[..if ci == 0 { 3 } else { 5 }]);
+                p.push(0xf8);
+                p.extend_from_slice(&filler[x..x + 1500]);
+                let bytes = match c.run(&p) {
+                    Some(b) => b,
+                    None => continue,
+                };
+                let case = StreamCase { stream_len: bytes.len(), bytes, plain: Some(p), descr: format!("{} long match inserted at {}", c.describe(), x + 1) };
+                validate_model(&case);
+                st.sample(name, || format!("#{} {} ({} bytes)", i, case.descr, case.bytes.len()));
+                if std::env::var("PFV_DEBUG").is_ok() && (65266..=65270).contains(&x) {
+                    eprintln!("DEBUG align x={} ci={} comp={:?} est={:?}", x, ci, c, ctx.cur.estimate(&case.bytes));
+                }
+                ctx.begin(name, i, 120_000);
+                f(st, name, i, &case, c);
+                ctx.end();
+            }
+        }
+    }
+    let e = st.eng(name);
+    e.bound = format!("a 258-byte copy followed by a short match, and a 300-byte copy, of earlier text inserted at every offset of the windows {:?} (around the u16 position re-base thresholds 65024 + k*32256 up to the u16 limit) x {} compressor configurations", windows, comps.len());
+    e.exhaustive = true;
+}
+
+/// E4s: one reference per stream behind a 32 KiB stored prefix: (length, distance) over boundary menus.
+/// Unlike E4 (256 references per stream) these streams are accepted by the full pipeline.
+pub fn e4_single(ctx: &Ctx, name: &str, lens: &[u16], dists: &[u16], st: &mut Local, f: Sink) {
+    if !ctx.engine_on(name) {
+        return;
+    }
+    let prefix = e4_prefix();
+    let mut idx = 0u64;
+    for &dist in dists {
+        for &len in lens {
+            for kind in 0..2 {
+                let i = idx;
+                idx += 1;
+                if ctx.sel.mine(i) {
+                    let e = st.eng(name);
+                    e.states += 1;
+                    e.transitions += 1;
+                    e.nontrivial += 1;
+                }
+                if !ctx.take(name, i) {
+                    continue;
+                }
+                let mut toks = vec![Tok::Lit(b'x'), Tok::Ref { len, dist, irr: false }];
+                for k in 0..11u8 {
+                    toks.push(Tok::Lit(b'A' + k));
+                }
+                let blk = if kind == 0 { Block::Fixed { toks } } else { Block::Dyn { hdr: default_header(&toks), toks } };
+                // the reference sits one byte into the second block, so dist = 32768 reaches offset 1
+                let s = Stream { blocks: vec![Block::Stored { data: prefix.clone(), pad: 0 }, blk], final_pad: 0 };
+                let bytes = serialise(&s);
+                let case = StreamCase { stream_len: bytes.len(), bytes, plain: Some(plaintext(&s)), descr: format!("single ref len {} dist {} {}", len, dist, if kind == 0 { "fixed" } else { "dynamic" }) };
+                deliver(ctx, name, st, i, case, f);
+            }
+        }
+    }
+    let e = st.eng(name);
+    e.bound = format!("{} distances x lengths {:?} x {{fixed, dynamic}}: one reference per stream behind a 32 KiB stored prefix", dists.len(), lens);
     e.exhaustive = true;
 }
